@@ -5,6 +5,8 @@
    of FromPcap (Import.dump, Import.classify, reader stack); the extension property itself is proved for
    no assembler here (UDP: one flow alone, see C05) and is what the correspondence runs check. *)
 From Pk Require Import Import ImportProofs ImportExamples ImportSnapshot ImportRestart BuilderOrder UdpInterleave.
+From Pk Require Import ImportIndex.
+Require Pk.IndexFormat Pk.IndexFormatWriter Pk.IndexFormatPackets Pk.IndexFormatLookup.
 From Coq Require Import Sorting.Permutation.
 
 (* (2a) after any such sequence of imports a view shows under id j exactly the j-th assembled stream *)
@@ -133,3 +135,20 @@ Example C08_chronological_example :
   visible_payloads (snd (run3 false [[0]; [1]; [2]])) = visible_payloads (snd (run3 false [[0; 1; 2]])) /\
   visible_payloads (snd (run3 false [[0; 1]; [2]])) = visible_payloads (snd (run3 false [[0; 1; 2]])).
 Proof. exact chronological_batches_example. Qed.
+
+(* the lookup [Import.index_lookup] abstracts IS Reader.StreamByFirstPacketSource (C01's theorem, imported): a stored
+   model stream is found under the source of its first packet *)
+Theorem C08_written_stream_found_by_first_packet_source :
+  forall (addr_bytes file_name : N -> list N) (ts_ns : N -> N) gcap (L : list (N * stream)) w r,
+  16 < gcap <= 4 * Pk.IndexFormat.P16 ->
+  Forall (fun ids => Pk.IndexFormatWriter.wf_meta (snd ids)) (to_L addr_bytes file_name ts_ns L) ->
+  Forall (fun ids => Pk.IndexFormatPackets.names_ok (snd ids)) (to_L addr_bytes file_name ts_ns L) ->
+  Forall (fun ids => Pk.IndexFormatLookup.first_src (snd ids) <> None) (to_L addr_bytes file_name ts_ns L) ->
+  NoDup (map (fun ids => Pk.IndexFormatLookup.first_src_or (snd ids)) (to_L addr_bytes file_name ts_ns L)) ->
+  Pk.IndexFormat.add_streams gcap Pk.IndexFormat.new_writer (to_L addr_bytes file_name ts_ns L) = Some w ->
+  Pk.IndexFormat.new_reader (Pk.IndexFormat.finalize w) = Some r ->
+  Pk.IndexFormat.lenN (Pk.IndexFormat.w_packets w) < Pk.IndexFormat.P32 ->
+  forall k id s f i, nth_error L k = Some (id, s) -> first_source s = Some (f, i) ->
+  exists rec, Pk.IndexFormat.stream_by_source r (file_name f) i = Some (rec, N.of_nat k) /\
+              nth_error (Pk.IndexFormat.all_streams r) k = Some rec.
+Proof. exact written_stream_found_by_first_packet_source. Qed.
